@@ -144,7 +144,7 @@ def _sys_dist(pid, tier, seed, own, fams, nq, nt, cq, ct, emphasis, dq, dt, size
 
 def check_C04(tier, seed):
     em = lambda r: {"batch": r.choice([1, 1, 1, 2]), "period": r.choice([0, 0, 0, 20]), "threads": r.choice([2, 2, 3, 3, 4]),
-                    "skew": r.choice([0, 30, 150, 600])}
+                    "skew": r.choice([0, 30, 150, 600]), "skewp": r.choice(["tphase", "drain", "drain", "nphase"])}
     c = syscamp.Campaign("C04", tier, seed, own_ids=["C04"])
     try:
         c.build(dist=True)
@@ -172,6 +172,18 @@ def check_C04(tier, seed):
         pem = lambda r: {"ranks": 2, "threads": r.choice([1, 1, 1, 2]), "net": r.choice([0, 1]), "batch": 1, "period": 0, "skew": r.choice([0, 0, 80, 160, 320]),
                          "policy": r.choice([2, 2, 0, 4]), "switch": r.choice(["1/1", "1/2", "1/3", "1/3", "1/4"])}
         c.run(_models(tier, seed + 70, ["pingpong"], 5, 20), 10 if tier == "quick" else 16, emphasis=pem)
+        # systematic single-delay exploration: one thread is kept off the processor for a long time at its n-th arrival at an observation
+        # point, for every n of a window that spans several GVT rounds (each run is identical up to the delay).  On the `laggard' models only
+        # one thread holds the GVT down, so a contribution that is lost, overwritten or read too early shows as a GVT above its pending events.
+        # (measured on the seeded change C04c: the delay must be long enough for the other thread to finish its reduction (tens of decisions) and
+        # short enough that it does not drain its whole backlog meanwhile; 3..28 of the 79 positions expose it, depending on the model)
+        win = range(1, 80) if tier == "quick" else range(1, 200)
+        for k in range(1 if tier == "quick" else 5):
+            for tag in ((0, 1) if tier == "quick" else (0, 1)):
+                for pt, ln in ((("drain", 50),) if tier == "quick" else (("drain", 50), ("drain", 400), ("tphase", 50), ("nphase", 50))):
+                    c.sweep_phase("laggard", (seed + 90) * 100 + k,
+                                  [{"threads": 2, "ckpt": 0, "batch": 1, "period": 0, "sseed": 7 + tag, "switch": "1/4", "policy": 0, "skew": 0,
+                                    "delay": "%d:%s:%d:%d" % (tag, pt, n, ln)} for n in win])
         return c.finish()
     finally:
         c.close()
